@@ -1,5 +1,6 @@
 //! lv_col: column write path and decoders (C01; column half of C07).
 mod api;
+mod c07;
 mod colbuf;
 mod dump;
 mod ops;
@@ -9,5 +10,6 @@ fn main() {
     let mut v: Vec<Box<dyn lvharness::suite::Suite>> = vec![];
     v.extend(colbuf::suites());
     v.extend(api::suites());
+    v.extend(c07::suites());
     lvharness::cli_main(v);
 }
